@@ -469,8 +469,8 @@ func DischargeAll(obls []*Obligation, workdir string, timeoutS int, par int, see
 		go func(o *Obligation) {
 			defer wg.Done()
 			defer func() { <-sem }()
-			if o.Static {
-				return
+			if o.Static || (o.Result == "unsat" && o.Solver != "") {
+				return // decided already (alias / loop-rebinding retries discharge their candidates themselves)
 			}
 			first := timeoutS
 			if first > 5 {
